@@ -204,8 +204,6 @@ func (t *Array) Process(ctx *ProcessContext, di *DataIndexer, accessor Accessor)
 	di.IndexStackUp()
 	defer di.IndexStackDown()
 
-	// Record current number of bits processed.
-	i := ctx.i
 	// Opponent array capacity if extensible set.
 	ahead := uint16(0)
 
@@ -219,6 +217,9 @@ func (t *Array) Process(ctx *ProcessContext, di *DataIndexer, accessor Accessor)
 		}
 	}
 
+	// Record number of bits processed before the first element.
+	j := ctx.i
+
 	// Process array elements.
 	for k := 0; k < t.capacity; k++ {
 		// Rewrite indexer's array index tracker.
@@ -228,8 +229,11 @@ func (t *Array) Process(ctx *ProcessContext, di *DataIndexer, accessor Accessor)
 
 	// Skip redundant bits post decoding.
 	if t.extensible && !ctx.isEncode {
-		// Skip redundant bits.
-		ito := i + int(ahead)*t.capacity
+		// Skip redundant bits. The number of bits an element occupies in the
+		// stream is measured from what was consumed (an element may be an
+		// extended message).
+		elementNbits := (ctx.i - j) / t.capacity
+		ito := j + int(ahead)*elementNbits
 		if ito >= ctx.i {
 			ctx.i = ito
 		}
